@@ -596,6 +596,9 @@ class Engine:
         """attribute read; list of Res"""
         if isinstance(v, VModule):
             q = v.name + "." + name
+            written = st.ghost.get("module_globals_written")
+            if written is not None and q in written:
+                return [Res(st, written[q])]        # a module global assigned earlier on this path
             return [Res(st, self.qualified(q))]
         if isinstance(v, VObj):
             if v.cls == "exc":
@@ -1231,6 +1234,8 @@ class Engine:
             h = self.R.specs.get("U.getitem")
             if h:
                 return h(self, st, [base, idx], {})
+        if isinstance(base, (VBytes, VStr)) and isinstance(idx, (VStr, VBytes, VNone, VTuple, VList)):
+            return [self.raise_(st, "builtins.TypeError")]      # str / bytes indices must be integers or slices
         raise Unsupported("subscript of %r at line %d" % (base, node.lineno))
 
     # --- calls ------------------------------------------------------------------------------------------------------
@@ -1898,6 +1903,13 @@ class Engine:
             h = self.R.specs.get("U.setattr")
             if h:
                 return h(self, st, [obj, VStr(name), val], {})
+        if isinstance(obj, VModule):
+            # assignment to a module global (e.g. a configuration item): remembered for the rest of the path, logged as a ghost event
+            written = dict(st.ghost.get("module_globals_written") or {})
+            written[obj.name + "." + name] = val
+            st.ghost["module_globals_written"] = written
+            st.event("module_global_store", obj.name + "." + name, val)
+            return [Res(st, NONE)]
         raise Unsupported("attribute store on %r" % (obj,))
 
     def st_Assign(self, node, st):
